@@ -27,7 +27,15 @@ SSOC = "wannierberri/system/system_soc.py"
 SYSR = "wannierberri/system/system_R.py"
 RVEC = "wannierberri/fourier/rvectors.py"
 INTP = "wannierberri/system/interpolate.py"
+PATHF = "wannierberri/grid/path.py"
 MUTANTS = [
+    dict(prop="C29", name="from_nodes: endpoint=True sampling", file=PATHF, old="np.linspace(0, 1., _nk - 1, endpoint=False)", new="np.linspace(0, 1., _nk - 1, endpoint=(_nk == 2))"),
+    dict(prop="C29", name="from_nodes: break index off by one", file=PATHF, old="                breaks.append(K_list.shape[0] - 1)", new="                breaks.append(K_list.shape[0])"),
+    dict(prop="C29", name="from_nodes: label of segment end", file=PATHF, old="                new_labels[K_list.shape[0]] = l1\n                start = np.array(start)", new="                new_labels[K_list.shape[0]] = l2\n                start = np.array(start)"),
+    dict(prop="C29", name="get_refined: segment after a break refined", file=PATHF, old="            if i not in self.breaks:\n                segment", new="            if (i - 1) not in self.breaks:\n                segment"),
+    dict(prop="C29", name="get_refined: label of last point dropped when it is a break", file=PATHF, old="        if last_point_index in self.labels:\n            labels_refined[len(K_list_refined) - 1] = self.labels[last_point_index]", new="        if last_point_index in self.labels and last_point_index not in self.breaks:\n            labels_refined[len(K_list_refined) - 1] = self.labels[last_point_index]"),
+    dict(prop="C29", name="get_K_list: batches overlap by one", file=PATHF, old="            K = self.K_list[ik:ik + k_batch]", new="            K = self.K_list[ik:ik + k_batch + (1 if k_batch > 3 else 0)]"),
+    dict(prop="C29", name="getKline: break zeroes the next segment", file=PATHF, old="            k[self.breaks] = 0.0", new="            k[np.array(self.breaks) - (1 if len(self.breaks) > 1 else 0)] = 0.0"),
     dict(prop="C26", name="interpolate: centres mixed with swapped weights", file=INTP, old="new_system.wannier_centers_cart = (1 - alpha) * self.system0.wannier_centers_cart + alpha * self.system1.wannier_centers_cart", new="new_system.wannier_centers_cart = alpha * self.system0.wannier_centers_cart + (1 - alpha) * self.system1.wannier_centers_cart"),
     dict(prop="C26", name="init: system1 re-embedded with system0 map", file=INTP, old="for sys, iRmap  in zip([self.system0, self.system1], [iRvec_map_0, iRvec_map_1]):", new="for sys, iRmap  in zip([self.system0, self.system1], [iRvec_map_0, iRvec_map_0 if len(iRvec_map_0) == len(iRvec_map_1) else iRvec_map_1]):"),
     dict(prop="C26", name="init: one-sided keys kept in system0", file=INTP, old="                if key in sys._XX_R:\n                    del sys._XX_R[key]", new="                if key in sys._XX_R and sys is self.system1:\n                    del sys._XX_R[key]"),
